@@ -636,6 +636,8 @@ class CExec:
             raise OutOfSubset("access to object %s of unknown extent" % p.obj)
         self.oblige(st, "ub", "oob_read." + p.obj, z3.And(p.off >= 0, p.off < o.length), node)
         if o.elem.is_ptr():
+            if getattr(o, "holds_pyobj", False):
+                return Ptr(o.elem, "pyobj", z3.simplify(z3.Select(st.mem[p.obj], p.off)))
             if getattr(o, "target", None):
                 # pointer cell into a known buffer: the cell holds the element offset
                 return Ptr(o.elem, o.target, z3.simplify(z3.Select(st.mem[p.obj], p.off)))
@@ -664,6 +666,11 @@ class CExec:
         self.__dict__.setdefault("written", set()).add(p.obj)
         if isinstance(v, Ptr):
             if getattr(o, "target", None) and v.obj == o.target:
+                st.mem[p.obj] = z3.Store(st.mem[p.obj], p.off, v.off)
+                return
+            if v.obj == "pyobj" and o.elem.is_ptr():
+                # an array of object pointers (e.g. the parts of a string join): the cells hold object identities
+                o.holds_pyobj = True
                 st.mem[p.obj] = z3.Store(st.mem[p.obj], p.off, v.off)
                 return
             raise OutOfSubset("store of a pointer into %s" % p.obj)
